@@ -181,29 +181,23 @@ Theorem C17_candidate_old_refuted :
 Proof. exact candidate_old_refuted. Qed.
 Print Assumptions C17_candidate_old_refuted.
 
-(* 9. header decision: row 0 is a header iff some NON-EMPTY field of it fails its column's type; a first row that
-   reads as a data row is therefore never taken as a header.  Regression witness: ",2\n3,4\n" had a header under the
-   old rule (empty fields voting). *)
+(* 9. header decision, the documented rule (reader.rs: "trying to parse the first record into the inferred types ... If
+   it differs, assume a header"): row 0 is a header iff some field of it is not valid for its column's type.  The empty
+   string is valid for Utf8 only, so an empty header name over a typed column marks a header (the engine's own
+   slt/csv/infer/empty_header_names.slt pins that); a first row whose fields all parse is never a header. *)
 Theorem C17_header_decision_spec : forall first rest s,
   infer_schema (first :: rest) = Some s ->
   col_types s = fold_left revalidate_row rest (fold_left update_row rest (repeat CBool (length first))) /\
-  (has_header s = true <-> exists f c, In (f, c) (combine first (col_types s)) /\ f <> [] /\ is_valid c f = false).
+  (has_header s = true <-> exists f c, In (f, c) (combine first (col_types s)) /\ is_valid c f = false).
 Proof. exact header_decision_spec. Qed.
 Print Assumptions C17_header_decision_spec.
 
-Theorem C17_typed_first_row_not_header : forall first rest s,
+Theorem C17_valid_first_row_not_header : forall first rest s,
   infer_schema (first :: rest) = Some s ->
-  (forall f c, In (f, c) (combine first (col_types s)) -> f = [] \/ is_valid c f = true) ->
+  (forall f c, In (f, c) (combine first (col_types s)) -> is_valid c f = true) ->
   has_header s = false.
-Proof. exact typed_first_row_not_header. Qed.
-Print Assumptions C17_typed_first_row_not_header.
-
-Theorem C17_header_null_first_row_old_refuted :
-  exists recs cs s, infer_schema_old recs = Some (true, cs) /\
-    Forall (fun r => Forall (fun f => f = [] \/ is_int f = true) r) recs /\
-    infer_schema recs = Some s /\ has_header s = false /\ col_types s = [CInt; CInt].
-Proof. exact header_null_first_row_old_refuted. Qed.
-Print Assumptions C17_header_null_first_row_old_refuted.
+Proof. exact valid_first_row_not_header. Qed.
+Print Assumptions C17_valid_first_row_not_header.
 
 (* 10. dialect choice: the chosen dialect is the first in source order that maximises the field count among the
    dialects decoding >= 2 records of equal width >= 2 from the sample *)
